@@ -701,7 +701,21 @@ fn generate_wide(args: &Args, out: &mut Out, hist: &mut Hist) {
             if rng.chance(1, 3) {
                 // a name that is not there: never defined / defined only under the other setting of the define
                 let inactive: Vec<String> = prog.pipes().iter().map(|p| p.name.clone()).filter(|n| !names.contains(n)).collect();
-                let n = if !inactive.is_empty() && rng.chance(1, 2) { inactive[0].clone() } else { "Nope".to_string() };
+                let n = if !inactive.is_empty() && rng.chance(1, 2) {
+                    inactive[0].clone()
+                } else if !names.is_empty() && rng.chance(2, 3) {
+                    // a prefix / an extension / a case variant of a name that exists
+                    let base = rng.pick(&names).clone();
+                    let cand = match rng.below(4) {
+                        0 => format!("{}0", base),
+                        1 => base[..base.len() - 1].to_string(),
+                        2 => base.to_lowercase(),
+                        _ => base.to_uppercase(),
+                    };
+                    if cand.is_empty() { "Nope".to_string() } else { cand }
+                } else {
+                    "Nope".to_string()
+                };
                 run_wide(tgt, &Mode::Named(n), o, &s, out, hist);
             }
             if rng.chance(1, 3) {
